@@ -1,5 +1,6 @@
 """Contracts for rockridge.RRTFRecord (C19/tf, C08/len, C05)."""
 from pyvc import sx
+from pyvc import values as V
 from pyvc.sx import And, Or, Not, Implies, If, Eq
 from pyvc.contract import contract, Call
 from contracts.utils import Base
@@ -77,10 +78,7 @@ class TFRoundTrip(Base):
         a = c.a
         n = 5 + 7 * popcount7(self.flags)
         a.body = c.bytes('b', n - 5)
-        a.b = bytes([0x54, 0x46, n, 1, self.flags]) + a.body if not c.symbolic else None
-        if c.symbolic:
-            from pyvc import values as V
-            a.b = V.SBytes([0x54, 0x46, n, 1, self.flags] + a.body.items)
+        a.b = V.mk_bytes([0x54, 0x46, n, 1, self.flags] + V.items_of(a.body))
         a.self = c.new(TF)
         c.call(TF + '.parse', a.self, a.b)
         return Call([], self_obj=a.self)
